@@ -178,6 +178,16 @@ pub open spec fn create_events(c: TableCreateStatement) -> Seq<Ev> {
 
 
 def build(u, variant=None):
+    """variant None: MySQL / Postgres (C14).  variant `sqlite`: the SQLite renderers (C13) - the shared defaults are re-extracted and carry C13 there."""
+    global P
+    P = ["C13"] if variant == "sqlite" else ["C14"]
+    try:
+        _build(u, variant)
+    finally:
+        P = ["C14"]
+
+
+def _build(u, variant=None):
     u.emit("use vstd::prelude::*;\nverus! {\n")
     types(u)
     u.prelude_file("units/schema/spec.rs", props=P)
@@ -231,11 +241,15 @@ fn vfmt_disp<W: VWrite, T: VDisp + ?Sized>(w: &mut W, x: &T) ensures final(w).tr
          loops=loops, proofs=proofs)
     more_defaults(u)
     u.emit("}\n")
-    mysql_table(u)
-    postgres_table(u)
-    index_fk(u)
-    pg_types(u)
-    column_types(u)
+    if variant == "sqlite":
+        from units.schema import sqlite as sq
+        sq.build_sqlite(u)
+    else:
+        mysql_table(u)
+        postgres_table(u)
+        index_fk(u)
+        pg_types(u)
+        column_types(u)
     u.emit("} // verus!\nfn main() {}\n")
 
 
@@ -727,12 +741,12 @@ pub open spec fn fkaction_text(a: ForeignKeyAction) -> &'static str {
 """
 
 
-def fk_fn(u, path, block, owner, name, events, pre_fn, extra_req=""):
+def fk_fn(u, path, block, owner, name, events, pre_fn, extra_req="", rawname=True, extra_rules=(), refuses=""):
     """foreign-key renderers: two comma-separated identifier lists (columns, referenced columns); staged through lemma_fk_compose"""
     K = "create.foreign_key"
     u.fn(path, block, name, props=P, key="%s::%s" % (owner, name), vpath="%s::%s" % (owner, name), prefix="#[verifier::rlimit(60)]\n    ",
-         rules=[r_dynw, r_fold, r_rawname, r_iden, r_semi, r_fmt, r_unit_tail],
-         spec="ensures\n    // [ALTER TABLE t] [ADD] [CONSTRAINT name] FOREIGN KEY (columns) REFERENCES table (columns) [ON DELETE ..] [ON UPDATE ..]: every column once, in call order\n    final(sql).tr() == old(sql).tr() + (%s)," % events,
+         rules=[r_dynw] + list(extra_rules) + [r_fold] + ([r_rawname] if rawname else []) + [r_iden, r_semi, r_fmt, r_unit_tail],
+         spec="ensures\n" + (("    // REFUSAL (panic!): the function returns only if\n    %s,\n" % refuses) if refuses else "") + "    // [ALTER TABLE t] [ADD] [CONSTRAINT name] FOREIGN KEY (columns) REFERENCES table (columns) [ON DELETE ..] [ON UPDATE ..]: every column once, in call order\n    final(sql).tr() == old(sql).tr() + (%s)," % events,
          loops=["invariant it1.index@ <= %s.columns@.len(), first == (it1.index@ == 0), sql.tr() == tc + l_idens(%s.columns@.subrange(0, it1.index@ as int))," % (K, K),
                 "invariant it2.index@ <= %s.ref_columns@.len(), first == (it2.index@ == 0), sql.tr() == tr2 + l_idens(%s.ref_columns@.subrange(0, it2.index@ as int))," % (K, K)],
          proofs={"body-start": "let ghost t0 = sql.tr();",
@@ -743,7 +757,7 @@ def fk_fn(u, path, block, owner, name, events, pre_fn, extra_req=""):
                  "body-end": "proof { lemma_l_idens_empty(%s.ref_columns@); assert(sql.tr() =~= tr2 + l_idens(%s.ref_columns@) + fk_end(%s)); lemma_fk_compose(t0, %s(*create, mode), tc, tr2, sql.tr(), %s); }" % (K, K, K, pre_fn, K)})
 
 
-def index_fk(u):
+def index_fk(u, backends=("mysql", "pg")):
     u.spec(list_fns("l_idxcols", "IndexColumn", "idxcol_events(%s)", "multi"), "schema::index-lists", props=P)
     u.spec(INDEX_SPEC, "schema::index-fk-spec", props=P)
     common_abs = (abstract("prepare_iden", "x: &DynIden", "Ev::Iden(*x)") + abstract("prepare_name", "x: &String", "Ev::Name(x@)") + abstract("prepare_index_prefix", "x: &IndexCreateStatement", "Ev::IdxPrefix(*x)")
@@ -771,57 +785,60 @@ def index_fk(u):
     simple(u, FB, "trait ForeignKeyBuilder", "prepare_foreign_key_action", "seq![lit(fkaction_text(*foreign_key_action))]", [r_dynw, r_fmt], "DfltI::prepare_foreign_key_action_impl",
            key="ForeignKeyBuilder::prepare_foreign_key_action", rename="prepare_foreign_key_action_impl")
     u.emit("}\n")
-    # ---- MySQL -----------------------------------------------------------------------------------------------------------------------------
-    MI, MF = "src/backend/mysql/index.rs", "src/backend/mysql/foreign_key.rs"
-    BI, BF = "impl IndexBuilder for MysqlQueryBuilder", "impl ForeignKeyBuilder for MysqlQueryBuilder"
-    u.emit("pub struct MysqlQueryBuilderI;\nimpl MysqlQueryBuilderI {\n")
-    u.spec(common_abs, "schema::abstract-sub-renderers(mysql index)", props=P)
-    O = "MysqlQueryBuilderI"
     r_panic_ns = make_r_sub("R-panic", r'panic!\("Not supported"\)', "vpanic()", min_count=0)
-    simple(u, MI, BI, "prepare_index_prefix", "idxprefix_mysql(*create)", [r_dynw, r_fmt], O + "::prepare_index_prefix_impl", key="MysqlQueryBuilder::prepare_index_prefix", rename="prepare_index_prefix_impl")
-    simple(u, MI, BI, "prepare_index_type", "idxtype_mysql(*col_index_type)", [r_dynw, r_owned, r_custom, make_r_sub("R-panic", r"unreachable!\(\)", "({ vpanic(); Self::vstr_owned(\"\") })", min_count=0), r_semi, r_fmt], O + "::prepare_index_type_impl",
-           key="MysqlQueryBuilder::prepare_index_type", rename="prepare_index_type_impl", comment="USING BTREE | HASH | <custom>; FULLTEXT is a prefix keyword in MySQL, not an index type")
-    simple(u, MI, BI, "prepare_table_index_expression", "tblindex_mysql(*create)", [r_dynw, r_rawname, r_fmt], O + "::prepare_table_index_expression", key="MysqlQueryBuilder::prepare_table_index_expression",
-           comment="[PRIMARY | UNIQUE | FULLTEXT] KEY [name] [USING type] (columns)")
-    simple(u, MI, BI, "prepare_index_create_statement", "idxcreate_mysql(*create)", [r_dynw, r_rawname, r_fmt], O + "::prepare_index_create_statement", key="MysqlQueryBuilder::prepare_index_create_statement")
-    simple(u, MI, BI, "prepare_index_drop_statement", "idxdrop_mysql(*drop)", [r_dynw, r_rawname, make_r_sub("R-panic", r'panic!\("Mysql does not support IF EXISTS for DROP INDEX"\)', "vpanic()", min_count=0), r_fmt],
-           O + "::prepare_index_drop_statement", key="MysqlQueryBuilder::prepare_index_drop_statement", refuses="!drop.if_exists")
-    simple(u, MI, BI, "prepare_table_ref_index_stmt", "seq![Ev::TRefIden(*table_ref)]", [r_dynw, r_panic_ns], O + "::prepare_table_ref_index_stmt_impl", key="MysqlQueryBuilder::prepare_table_ref_index_stmt",
-           rename="prepare_table_ref_index_stmt_impl", refuses="*table_ref is Table")
-    simple(u, MF, BF, "prepare_table_ref_fk_stmt", "seq![Ev::TRefIden(*table_ref)]", [r_dynw, r_panic_ns], O + "::prepare_table_ref_fk_stmt_impl", key="MysqlQueryBuilder::prepare_table_ref_fk_stmt",
-           rename="prepare_table_ref_fk_stmt_impl", refuses="*table_ref is Table")
-    simple(u, MF, BF, "prepare_foreign_key_drop_statement_internal", "fkdrop_mysql(*drop, mode)", [r_dynw, r_rawname, r_fmt], O + "::prepare_foreign_key_drop_statement_internal", key="MysqlQueryBuilder::prepare_foreign_key_drop_statement_internal")
-    fk_fn(u, MF, BF, O, "prepare_foreign_key_create_statement_internal", "fkcreate_mysql(*create, mode)", "fkpre_mysql")
-    u.emit("}\n")
-    # ---- PostgreSQL ------------------------------------------------------------------------------------------------------------------------
-    PI, PF = "src/backend/postgres/index.rs", "src/backend/postgres/foreign_key.rs"
-    BI, BF = "impl IndexBuilder for PostgresQueryBuilder", "impl ForeignKeyBuilder for PostgresQueryBuilder"
-    u.emit("pub struct PostgresQueryBuilderI;\nimpl PostgresQueryBuilderI {\n")
-    u.spec(common_abs + abstract("prepare_include_columns", "x: &Vec<DynIden>", "Ev::Include(*x)") + abstract("prepare_condition", "x: &ConditionHolder, kw: &str", "Ev::Cond(kw@, *x)"), "schema::abstract-sub-renderers(postgres index)", props=P)
-    O = "PostgresQueryBuilderI"
-    simple(u, PI, BI, "prepare_index_prefix", "idxprefix_pg(*create)", [r_dynw, r_fmt], O + "::prepare_index_prefix_impl", key="PostgresQueryBuilder::prepare_index_prefix", rename="prepare_index_prefix_impl")
-    simple(u, PI, BI, "prepare_index_type", "idxtype_pg(*col_index_type)", [r_dynw, r_owned, r_custom, r_semi, r_fmt], O + "::prepare_index_type_impl", key="PostgresQueryBuilder::prepare_index_type", rename="prepare_index_type_impl",
-           comment="USING BTREE | GIN (full text) | HASH | <custom>")
-    simple(u, PI, BI, "prepare_table_index_expression", "tblindex_pg(*create)", [r_dynw, r_rawname, r_fmt], O + "::prepare_table_index_expression", key="PostgresQueryBuilder::prepare_table_index_expression",
-           comment="[CONSTRAINT name] {PRIMARY KEY | UNIQUE [NULLS NOT DISTINCT]} (columns) [INCLUDE (columns)]")
-    simple(u, PI, BI, "prepare_index_create_statement", "idxcreate_pg(*create)", [r_dynw, r_rawname, r_fmt], O + "::prepare_index_create_statement", key="PostgresQueryBuilder::prepare_index_create_statement")
-    simple(u, PI, BI, "prepare_index_drop_statement", "idxdrop_pg(*drop)", [r_dynw, r_rawname, r_iden, r_panic_ns, r_fmt], O + "::prepare_index_drop_statement", key="PostgresQueryBuilder::prepare_index_drop_statement",
-           requires="drop.table is Some ==> (drop.table->Some_0 is Table) || (drop.table->Some_0 is SchemaTable)", t0_extra=" let ghost d_ = *drop;", pre="assert(d_ == *drop);")
-    simple(u, PI, BI, "prepare_filter", 'seq![Ev::Cond("WHERE"@, *condition)]', [r_dynw], O + "::prepare_filter_impl", key="PostgresQueryBuilder::prepare_filter", rename="prepare_filter_impl", comment="partial index predicate")
-    simple(u, PI, "impl PostgresQueryBuilder", "prepare_include_columns", 'seq![lit("INCLUDE (")] + l_idens(columns@) + seq![lit(")")]',
-           [r_dynw, make_r_sub("R-slice", r"columns: &\[SeaRc<dyn Iden>\]", "columns: &Vec<DynIden>"), r_fold, r_iden, r_semi, r_fmt], O + "::prepare_include_columns_impl", key="PostgresQueryBuilder::prepare_include_columns",
-           rename="prepare_include_columns_impl",
-           loops=["invariant it1.index@ <= columns@.len(), first == (it1.index@ == 0), sql.tr() == tc + l_idens(columns@.subrange(0, it1.index@ as int)),"],
-           extra_proofs={"before#1:let mut first = true;": "let ghost tc = sql.tr();\nproof { lemma_l_idens_empty(columns@); assert(tc + emp() =~= tc); }",
-                         "loop1-end": "proof { lemma_l_idens_step(columns@, it1.index@ as int); }"},
-           pre="lemma_l_idens_empty(columns@);")
-    simple(u, PI, BI, "prepare_table_ref_index_stmt", "seq![Ev::TRefIden(*table_ref)]", [r_dynw, r_panic_ns], O + "::prepare_table_ref_index_stmt_impl", key="PostgresQueryBuilder::prepare_table_ref_index_stmt",
-           rename="prepare_table_ref_index_stmt_impl", refuses="(*table_ref is Table) || (*table_ref is SchemaTable)")
-    simple(u, PF, BF, "prepare_table_ref_fk_stmt", "seq![Ev::TRefIden(*table_ref)]", [r_dynw, r_panic_ns], O + "::prepare_table_ref_fk_stmt_impl", key="PostgresQueryBuilder::prepare_table_ref_fk_stmt",
-           rename="prepare_table_ref_fk_stmt_impl", refuses="(*table_ref is Table) || (*table_ref is SchemaTable) || (*table_ref is DatabaseSchemaTable)")
-    simple(u, PF, BF, "prepare_foreign_key_drop_statement_internal", "fkdrop_pg(*drop, mode)", [r_dynw, r_rawname, r_fmt], O + "::prepare_foreign_key_drop_statement_internal", key="PostgresQueryBuilder::prepare_foreign_key_drop_statement_internal")
-    fk_fn(u, PF, BF, O, "prepare_foreign_key_create_statement_internal", "fkcreate_pg(*create, mode)", "fkpre_pg")
-    u.emit("}\n")
+    if "mysql" in backends:
+        # ---- MySQL -----------------------------------------------------------------------------------------------------------------------------
+        MI, MF = "src/backend/mysql/index.rs", "src/backend/mysql/foreign_key.rs"
+        BI, BF = "impl IndexBuilder for MysqlQueryBuilder", "impl ForeignKeyBuilder for MysqlQueryBuilder"
+        u.emit("pub struct MysqlQueryBuilderI;\nimpl MysqlQueryBuilderI {\n")
+        u.spec(common_abs, "schema::abstract-sub-renderers(mysql index)", props=P)
+        O = "MysqlQueryBuilderI"
+        simple(u, MI, BI, "prepare_index_prefix", "idxprefix_mysql(*create)", [r_dynw, r_fmt], O + "::prepare_index_prefix_impl", key="MysqlQueryBuilder::prepare_index_prefix", rename="prepare_index_prefix_impl")
+        simple(u, MI, BI, "prepare_index_type", "idxtype_mysql(*col_index_type)", [r_dynw, r_owned, r_custom, make_r_sub("R-panic", r"unreachable!\(\)", "({ vpanic(); Self::vstr_owned(\"\") })", min_count=0), r_semi, r_fmt], O + "::prepare_index_type_impl",
+               key="MysqlQueryBuilder::prepare_index_type", rename="prepare_index_type_impl", comment="USING BTREE | HASH | <custom>; FULLTEXT is a prefix keyword in MySQL, not an index type")
+        simple(u, MI, BI, "prepare_table_index_expression", "tblindex_mysql(*create)", [r_dynw, r_rawname, r_fmt], O + "::prepare_table_index_expression", key="MysqlQueryBuilder::prepare_table_index_expression",
+               comment="[PRIMARY | UNIQUE | FULLTEXT] KEY [name] [USING type] (columns)")
+        simple(u, MI, BI, "prepare_index_create_statement", "idxcreate_mysql(*create)", [r_dynw, r_rawname, r_fmt], O + "::prepare_index_create_statement", key="MysqlQueryBuilder::prepare_index_create_statement")
+        simple(u, MI, BI, "prepare_index_drop_statement", "idxdrop_mysql(*drop)", [r_dynw, r_rawname, make_r_sub("R-panic", r'panic!\("Mysql does not support IF EXISTS for DROP INDEX"\)', "vpanic()", min_count=0), r_fmt],
+               O + "::prepare_index_drop_statement", key="MysqlQueryBuilder::prepare_index_drop_statement", refuses="!drop.if_exists")
+        simple(u, MI, BI, "prepare_table_ref_index_stmt", "seq![Ev::TRefIden(*table_ref)]", [r_dynw, r_panic_ns], O + "::prepare_table_ref_index_stmt_impl", key="MysqlQueryBuilder::prepare_table_ref_index_stmt",
+               rename="prepare_table_ref_index_stmt_impl", refuses="*table_ref is Table")
+        simple(u, MF, BF, "prepare_table_ref_fk_stmt", "seq![Ev::TRefIden(*table_ref)]", [r_dynw, r_panic_ns], O + "::prepare_table_ref_fk_stmt_impl", key="MysqlQueryBuilder::prepare_table_ref_fk_stmt",
+               rename="prepare_table_ref_fk_stmt_impl", refuses="*table_ref is Table")
+        simple(u, MF, BF, "prepare_foreign_key_drop_statement_internal", "fkdrop_mysql(*drop, mode)", [r_dynw, r_rawname, r_fmt], O + "::prepare_foreign_key_drop_statement_internal", key="MysqlQueryBuilder::prepare_foreign_key_drop_statement_internal")
+        fk_fn(u, MF, BF, O, "prepare_foreign_key_create_statement_internal", "fkcreate_mysql(*create, mode)", "fkpre_mysql")
+        u.emit("}\n")
+    if "pg" in backends:
+        # ---- PostgreSQL ------------------------------------------------------------------------------------------------------------------------
+        PI, PF = "src/backend/postgres/index.rs", "src/backend/postgres/foreign_key.rs"
+        BI, BF = "impl IndexBuilder for PostgresQueryBuilder", "impl ForeignKeyBuilder for PostgresQueryBuilder"
+        u.emit("pub struct PostgresQueryBuilderI;\nimpl PostgresQueryBuilderI {\n")
+        u.spec(common_abs + abstract("prepare_include_columns", "x: &Vec<DynIden>", "Ev::Include(*x)") + abstract("prepare_condition", "x: &ConditionHolder, kw: &str", "Ev::Cond(kw@, *x)"), "schema::abstract-sub-renderers(postgres index)", props=P)
+        O = "PostgresQueryBuilderI"
+        simple(u, PI, BI, "prepare_index_prefix", "idxprefix_pg(*create)", [r_dynw, r_fmt], O + "::prepare_index_prefix_impl", key="PostgresQueryBuilder::prepare_index_prefix", rename="prepare_index_prefix_impl")
+        simple(u, PI, BI, "prepare_index_type", "idxtype_pg(*col_index_type)", [r_dynw, r_owned, r_custom, r_semi, r_fmt], O + "::prepare_index_type_impl", key="PostgresQueryBuilder::prepare_index_type", rename="prepare_index_type_impl",
+               comment="USING BTREE | GIN (full text) | HASH | <custom>")
+        simple(u, PI, BI, "prepare_table_index_expression", "tblindex_pg(*create)", [r_dynw, r_rawname, r_fmt], O + "::prepare_table_index_expression", key="PostgresQueryBuilder::prepare_table_index_expression",
+               comment="[CONSTRAINT name] {PRIMARY KEY | UNIQUE [NULLS NOT DISTINCT]} (columns) [INCLUDE (columns)]")
+        simple(u, PI, BI, "prepare_index_create_statement", "idxcreate_pg(*create)", [r_dynw, r_rawname, r_fmt], O + "::prepare_index_create_statement", key="PostgresQueryBuilder::prepare_index_create_statement")
+        simple(u, PI, BI, "prepare_index_drop_statement", "idxdrop_pg(*drop)", [r_dynw, r_rawname, r_iden, r_panic_ns, r_fmt], O + "::prepare_index_drop_statement", key="PostgresQueryBuilder::prepare_index_drop_statement",
+               requires="drop.table is Some ==> (drop.table->Some_0 is Table) || (drop.table->Some_0 is SchemaTable)", t0_extra=" let ghost d_ = *drop;", pre="assert(d_ == *drop);")
+        simple(u, PI, BI, "prepare_filter", 'seq![Ev::Cond("WHERE"@, *condition)]', [r_dynw], O + "::prepare_filter_impl", key="PostgresQueryBuilder::prepare_filter", rename="prepare_filter_impl", comment="partial index predicate")
+        simple(u, PI, "impl PostgresQueryBuilder", "prepare_include_columns", 'seq![lit("INCLUDE (")] + l_idens(columns@) + seq![lit(")")]',
+               [r_dynw, make_r_sub("R-slice", r"columns: &\[SeaRc<dyn Iden>\]", "columns: &Vec<DynIden>"), r_fold, r_iden, r_semi, r_fmt], O + "::prepare_include_columns_impl", key="PostgresQueryBuilder::prepare_include_columns",
+               rename="prepare_include_columns_impl",
+               loops=["invariant it1.index@ <= columns@.len(), first == (it1.index@ == 0), sql.tr() == tc + l_idens(columns@.subrange(0, it1.index@ as int)),"],
+               extra_proofs={"before#1:let mut first = true;": "let ghost tc = sql.tr();\nproof { lemma_l_idens_empty(columns@); assert(tc + emp() =~= tc); }",
+                             "loop1-end": "proof { lemma_l_idens_step(columns@, it1.index@ as int); }"},
+               pre="lemma_l_idens_empty(columns@);")
+        simple(u, PI, BI, "prepare_table_ref_index_stmt", "seq![Ev::TRefIden(*table_ref)]", [r_dynw, r_panic_ns], O + "::prepare_table_ref_index_stmt_impl", key="PostgresQueryBuilder::prepare_table_ref_index_stmt",
+               rename="prepare_table_ref_index_stmt_impl", refuses="(*table_ref is Table) || (*table_ref is SchemaTable)")
+        simple(u, PF, BF, "prepare_table_ref_fk_stmt", "seq![Ev::TRefIden(*table_ref)]", [r_dynw, r_panic_ns], O + "::prepare_table_ref_fk_stmt_impl", key="PostgresQueryBuilder::prepare_table_ref_fk_stmt",
+               rename="prepare_table_ref_fk_stmt_impl", refuses="(*table_ref is Table) || (*table_ref is SchemaTable) || (*table_ref is DatabaseSchemaTable)")
+        simple(u, PF, BF, "prepare_foreign_key_drop_statement_internal", "fkdrop_pg(*drop, mode)", [r_dynw, r_rawname, r_fmt], O + "::prepare_foreign_key_drop_statement_internal", key="PostgresQueryBuilder::prepare_foreign_key_drop_statement_internal")
+        fk_fn(u, PF, BF, O, "prepare_foreign_key_create_statement_internal", "fkcreate_pg(*create, mode)", "fkpre_pg")
+        u.emit("}\n")
+    return common_abs
 
 
 TYPES_SPEC = r"""
